@@ -134,7 +134,10 @@ def worker_explore(spec):
             c = seen_classes.get(k, 0)
             seen_classes[k] = c + 1
             if c < 3:
-                out["violations"].append({"index": i, "case": case, "violation": v})
+                # an oracle may hand over a more explicit case that reproduces the same violation (e.g. an observed
+                # address-dependent order pinned as a forced order)
+                rc = v.pop("replay_case", None)
+                out["violations"].append({"index": i, "case": rc or case, "violation": v})
     out["nontrivial"] = sorted(nontrivial)
     out["distinct"] = dict((k, sorted(v)) for k, v in distinct.items())
     out["violation_counts"] = seen_classes
